@@ -512,7 +512,7 @@ def c_constraint_mode(c, place, toggles, how="plain"):
           ["vsc.types.type_base.to_expr", "vsc.types.expr.__getattr__", "vsc.rand_obj._randobj.__call__", "vsc.attrs.rand_attr", "vsc.attrs.attr",
            "vsc.model.rand_info_builder.RandInfoBuilder.visit_composite_field", "vsc.model.expr_indexed_field_ref_model.ExprIndexedFieldRefModel.build",
            "vsc.types.list_t.append"],
-          lambda tier, seed: [(d,) for d in ("siblings", "nonrand_sub", "depth3", "obj_list", "shared_class")], kind="bounded",
+          lambda tier, seed: [(d,) for d in ("siblings", "nonrand_sub", "depth3", "obj_list", "shared_class", "poly_list")], kind="bounded",
           bound="object trees of depth <= 3, two sub-objects of one class, a non-random sub-object, a list of 3 objects (repeated calls, refilled by clear+append, element "
                 "assignment and whole-list assignment); cross-level constraints pinned to distinct values per path")
 def c_hierarchy(c, shape):
@@ -590,6 +590,41 @@ def c_hierarchy(c, shape):
         got = [_vals(s, "xy") for s in (o.m1.u, o.m1.v, o.m2.u, o.m2.v)]
         c.check("C08: depth-3 paths reach exactly their fields and every sub-object's own block holds",
                 got == [(1, 2), (2, 3), (3, 4), (4, 5)], info=repr(got))
+    elif shape == "poly_list":
+        # a list typed with a base class that holds an element of a derived class whose extra field sorts before the inherited one
+        @vsc.randobj
+        class Base(object):
+            def __init__(self):
+                self.z = vsc.rand_bit_t(8)
+
+        @vsc.randobj
+        class Der(Base):
+            def __init__(self):
+                super().__init__()
+                self.a = vsc.rand_bit_t(8)
+
+        @vsc.randobj
+        class P(object):
+            def __init__(self):
+                self.items = vsc.rand_list_t(Base())
+                self.items.append(Base())
+                self.items.append(Der())
+
+            @vsc.constraint
+            def cross(self):
+                self.items[0].z == 3
+                self.items[1].z == 4
+        o = P()
+        try:
+            ok = True
+            for _ in range(4):
+                o.randomize()
+                ok = ok and int(o.items[0].z) == 3 and int(o.items[1].z) == 4
+            c.check("C08: list[i].field denotes the field of that name of the element at index i, also when the element is of a "
+                    "derived class", ok, info=repr([int(x.z) for x in o.items]))
+        except Exception as e:
+            c.check("C08: list[i].field denotes the field of that name of the element at index i, also when the element is of a "
+                    "derived class", False, info="%s: %s" % (type(e).__name__, e))
     elif shape == "obj_list":
         @vsc.randobj
         class P(object):
